@@ -65,14 +65,11 @@ def load_known():
     return k.get("known", [])
 
 
-def finish(res, level, technique_note, explanation):
-    """Print verdict lines, write evidence + replay files, return exit code."""
-    pid = res.pid
+def known_matcher(pid):
+    """-> (function obligation -> key of the known finding it is, or None; {key: entry})"""
     known = [k for k in load_known() if k["property"] == pid]
     known_keys = {k["key"]: k for k in known}
-    viol = [o for o in res.obl if o["status"] == "violation"]
-    real = []
-    seen_known = set()
+
     def match_known(o):
         """exact key, or — for findings that are panic sites — the site itself: function, panic kind and the failing
         index/length or operand ranges (so that rewriting the surrounding expression does not hide or duplicate the finding)"""
@@ -84,6 +81,16 @@ def finish(res, level, technique_note, explanation):
             if m and o["rule"] == m.get("rule") and d.get("fn") == m.get("fn") and d.get("kind") == m.get("kind") and re.search(m.get("detail_re", "$^"), d.get("detail") or ""):
                 return k["key"]
         return None
+    return match_known, known_keys
+
+
+def finish(res, level, technique_note, explanation):
+    """Print verdict lines, write evidence + replay files, return exit code."""
+    pid = res.pid
+    match_known, known_keys = known_matcher(pid)
+    viol = [o for o in res.obl if o["status"] == "violation"]
+    real = []
+    seen_known = set()
     for o in viol:
         mk = match_known(o)
         if mk is not None:
